@@ -303,23 +303,31 @@ async fn on_event<K, V, LC>(
             }
         }
         MapMessage::Take(cnt) => {
-            let mut it = mem::take(map).into_iter();
-
-            for (key, value) in (&mut it).take(cnt as usize) {
-                map.insert(key, value);
-            }
-            for (key, value) in it {
-                lifecycle.on_remove(key, map, value).await;
-            }
+            let to_remove = map.keys().skip(cnt as usize).cloned().collect::<Vec<_>>();
+            remove_all(map, lifecycle, to_remove, dispatch).await;
         }
         MapMessage::Drop(cnt) => {
-            let mut it = mem::take(map).into_iter();
+            let to_remove = map.keys().take(cnt as usize).cloned().collect::<Vec<_>>();
+            remove_all(map, lifecycle, to_remove, dispatch).await;
+        }
+    }
+}
 
-            for (key, value) in (&mut it).take(cnt as usize) {
+/// Remove the keys one at a time so that each `on_remove` sees the map as it is after its own removal.
+async fn remove_all<K, V, LC>(
+    map: &mut BTreeMap<K, V>,
+    lifecycle: &mut LC,
+    keys: Vec<K>,
+    dispatch: bool,
+) where
+    LC: MapDownlinkLifecycle<K, V>,
+    K: Clone + Ord,
+    V: Clone,
+{
+    for key in keys {
+        if let Some(value) = map.remove(&key) {
+            if dispatch {
                 lifecycle.on_remove(key, map, value).await;
-            }
-            for (key, value) in it {
-                map.insert(key, value);
             }
         }
     }
